@@ -12,6 +12,8 @@ import time
 
 VERIF = os.path.dirname(os.path.dirname(os.path.abspath(__file__)))
 REPO = os.environ.get("VERIF_REPO", "/repo")
+# evidence/ is only ever written from runs against /repo itself; runs against a scratch copy (seeded changes) go elsewhere
+EVIDENCE_DIR = "evidence" if os.path.realpath(REPO) == "/repo" else "evidence-scratch"
 COQ = os.path.join(VERIF, "coq")
 BUILD = os.path.join(VERIF, "build")
 OVERLAY = os.path.join(VERIF, "harness", "overlay")
@@ -331,7 +333,7 @@ class Ctx:
         shutil.rmtree(self.workdir, ignore_errors=True)
         os.makedirs(self.workdir)
         os.makedirs(os.path.join(VERIF, "replays"), exist_ok=True)
-        os.makedirs(os.path.join(VERIF, "evidence"), exist_ok=True)
+        os.makedirs(os.path.join(VERIF, EVIDENCE_DIR), exist_ok=True)
         self.violations = []        # (replay path, suffix)
         self.known_hits = []
         self.notes = []
@@ -363,7 +365,7 @@ class Ctx:
             "coverage": coverage, "assumptions": assumptions,
             "wall_s": round(time.time() - self.t0, 2), "violations": len(self.violations),
         }
-        json.dump(ev, open(os.path.join(VERIF, "evidence", self.prop + ".json"), "w"), indent=1, default=str)
+        json.dump(ev, open(os.path.join(VERIF, EVIDENCE_DIR, self.prop + ".json"), "w"), indent=1, default=str)
         self.cleanup()
         sys.stdout.flush()
         return 1 if self.violations else 0
